@@ -9,6 +9,7 @@ import Dos.MultiDriver
 import Dos.ConcDriver
 import Dos.BackupDriver
 import Dos.Sample
+import Dos.BackupFolders
 
 open Dos
 
@@ -47,6 +48,22 @@ def stepAll (a : All) (line : String) : All × String :=
       let rs := Sample.sampleReads size
       (a, if rs.isEmpty then "-" else String.intercalate "," (rs.map (fun r => s!"{r.1}.{r.2}")))
     | none => (a, "bad-op")
+  else if l.startsWith "bkf " then
+    -- backup folder management: `bkf <keep> <attempts>`, attempts = names (numbers) or `x` for a failed one, comma separated;
+    -- answer: the folder list and what last-backup points to after every attempt
+    match ((l.drop 4).toString.splitOn " ").filter (· != "") with
+    | [keep, atts] =>
+      match keep.toNat? with
+      | some k =>
+        let toks := if atts == "-" then [] else atts.splitOn ","
+        let steps := toks.foldl (fun (acc : BackupFolders.FSt × List String) tok =>
+          let s' := match tok.toNat? with
+            | some n => BackupFolders.takeBackup k acc.1 n
+            | none => BackupFolders.failBackup acc.1
+          (s', acc.2 ++ [Wire.showNats s'.backups ++ "@" ++ (match s'.last with | some x => toString x | none => "-")])) ({ backups := [], last := none }, [])
+        (a, if steps.2.isEmpty then "-" else String.intercalate ";" steps.2)
+      | none => (a, "bad-op")
+    | _ => (a, "bad-op")
   else if l == "reset" then ({}, "ok")
   else (a, "bad-op unknown-protocol")
 
